@@ -161,6 +161,16 @@ CLAIMED["C16"] = dict(
     technique="TLA+ specification (Teardown) model-checked with TLC incl. liveness; TLC-enumerated fault sequences (Faults) executed against a real broker",
     design="6 C16")
 
+CLAIMED["C17"] = dict(
+    text="Recorded executions of a real broker under concurrent load (2-4 raw publishers + Server.Publish, shared subscribers, 16 KiB rings, packet sizes that "
+         "wrap the ring mid-packet, QoS 0/1/2, retained rewriting, subscription churn) are validated by TLC against the OutStreamTrace specification: the enq hook "
+         "(under the connection's write mutex, before the ring commit) appends a whole packet to the connection's stream, every packet a client parses (strict "
+         "reference parser) must be exactly the head of that stream, and the messages of one publisher reach one subscriber with consecutive sequence numbers.",
+    note="Interleavings are whatever 16 cores produce; each observed one is checked completely (every event is an enabling condition of the trace specification), "
+         "the set is not controlled. Trusted: TLC, the enq/proc hooks, harness/fanin.go.",
+    technique="TLA+ trace specification (OutStreamTrace) - recorded traces of the real broker validated by TLC",
+    design="6 C17")
+
 NOT_APPLICABLE = {
     "C18": "data-race freedom is a property of individual memory accesses under the Go memory model; a TLA+ specification "
            "observes actions, not loads and stores, and could only be bound to the code by hand-placed annotations (DESIGN.md section 7)",
